@@ -291,6 +291,17 @@ fn install_stubs() {
     });
 }
 
+/// For level A suites that call program functions directly (no transaction): install the stubs and
+/// set the unix timestamp and slot that `Clock::get()` returns (e.g. Solend reserve staleness
+/// reads `Clock::get()?.slot`).
+pub fn set_global_clock_slot(unix_timestamp: i64, slot: u64) {
+    install_stubs();
+    ctx(|c| {
+        c.unix_timestamp = unix_timestamp;
+        c.slot = slot;
+    });
+}
+
 // ---------------------------------------------------------------------------------------------
 // Program dispatch (shared by top level and CPI)
 // ---------------------------------------------------------------------------------------------
